@@ -466,7 +466,7 @@ func checkHistory(c histCase, r *h.Rec) error {
 
 func TestC01_History(t *testing.T) {
 	observeTier()
-	h.Prop(t, h.P{Name: "history", Quick: 40000, Thorough: 2000000, Journal: true}, genHist, checkHistory)
+	h.Prop(t, h.P{Name: "history", Quick: 40000, Thorough: 1500000, Journal: true}, genHist, checkHistory)
 }
 
 // hand-written histories that must always be part of the run (regression
@@ -779,7 +779,7 @@ func TestC01_KdfExhaustive(t *testing.T) {
 func TestC01_KdfRandom(t *testing.T) {
 	observeTier()
 	maxZ := h.Scale(2048, 65536)
-	h.Prop(t, h.P{Name: "kdf-random", Quick: 30000, Thorough: 1000000, Journal: true}, func(t *rapid.T) kdfCase {
+	h.Prop(t, h.P{Name: "kdf-random", Quick: 30000, Thorough: 750000, Journal: true}, func(t *rapid.T) kdfCase {
 		var c kdfCase
 		// len(z): block count and residue drawn separately so that every
 		// residue mod 64 is hit, with extra weight on 48..63
